@@ -344,7 +344,23 @@ def _in_struct_literal(toks, q):
 # std methods with a vstd specification strong enough for the contracts here (used on the receivers this code base has)
 # (probed: String::from(&str) and .into() are accepted WITHOUT a usable specification, so they are not listed)
 SPECIFIED_CALLS = {"len", "is_empty", "push", "unwrap", "is_some", "is_none", "is_ok", "is_err", "as_str", "to_string", "to_owned", "new",
-                   "clear", "clone", "cloned", "Ok", "Err", "Some"}
+                   "clear", "clone", "cloned", "Ok", "Err", "Some",
+                   # probed 2026-10-05 (a postcondition stating the documented result verifies): integer and Option/Result/Vec helpers
+                   "saturating_sub", "wrapping_sub", "checked_add", "checked_sub", "min", "max", "unwrap_or", "unwrap_or_default", "ok_or", "ok",
+                   "first", "last", "pop", "append", "swap_remove", "truncate", "as_bytes"}
+
+
+# std string functions with a shim of complete contract in specs/lib/std_str.rs: method name -> rules that rewrite a call of it
+AUTO_RULES = {
+    "starts_with": ["D6.starts_with_lit"],
+    "contains": ["D6.contains_char"],
+    "find": ["D6.find_char"],
+    "rfind": ["D6.rfind_char", "D6.rfind_lit"],
+    "split": ["D6.split_comma"],
+    "split_terminator": ["D6.split_terminator_comma", "D6.split_terminator_lit"],
+    "rsplit_once": ["D6.rsplit_once_char"],
+    "lines": ["D6.str_lines"],
+}
 
 
 def call_names(toks):
@@ -608,7 +624,11 @@ class Unit:
         loaded = self._load(self.spec_path, devs)
         lines = [x[0] for x in loaded]
         origin_of = [(x[1], x[2]) for x in loaded]
-        self.unit_fns = set(re.findall(r"\bfn\s+([A-Za-z_][A-Za-z0-9_]*)", "\n".join(lines)))
+        alltext = "\n".join(lines)
+        self.unit_fns = set(re.findall(r"\bfn\s+([A-Za-z_][A-Za-z0-9_]*)", alltext))
+        # std functions the unit gives an assumed contract: `assume_specification<..>[ path::to::name ]`
+        for m in re.finditer(r"assume_specification\s*(?:<[^\[]*>)?\s*\[([^\]]+)\]", alltext):
+            self.unit_fns.add(re.split(r"::", re.sub(r"<[^>]*>", "", m.group(1)).strip())[-1].strip())
         out_lines = []
         linemap = []
         i = 0
@@ -804,6 +824,21 @@ class Unit:
             fresh = sorted(c for c in call_names(code1) if c not in known and not c[:1].isupper())
         except (ValueError, IndexError):
             fresh = []
+        if fresh:
+            # second chance: std string functions for which std_str.rs (included by every unit) has a shim with a complete
+            # contract are rewritten in the SOURCE tokens only - the contract's own text is not touched
+            for name in list(fresh):
+                for r in AUTO_RULES.get(name, ()):
+                    if r in reg.rules:
+                        continue
+                    code1, cnt = rewrites.apply(r, code1, ctx)
+                    if cnt:
+                        reg.rewrites_applied[r] = reg.rewrites_applied.get(r, 0) + cnt
+                        DRIFT_LOG.append("auto rule %s applied to a call the contract's version does not make (%d)" % (r, cnt))
+            try:
+                fresh = sorted(c for c in call_names(code1) if c not in known and not c[:1].isupper())
+            except (ValueError, IndexError):
+                pass
         if fresh and not os.environ.get("VERIF_ALLOW_NEW_CALLS"):
             raise ExtractError("unsupported construct in %s: call of `%s` - not called by the contract's version of this item, not defined in the unit, "
                                "not a std function with a usable specification" % (" ".join(reg.path), "`, `".join(fresh[:4])))
